@@ -150,7 +150,7 @@ def run(chk):
         dist = {"reference_runs": 0, "single_reboot": 0, "multi_reboot": 0, "after_completion_before_mark": 0, "after_refusal": 0}
         nt = evaluate(chk, scns, lines, impl, outs, variant, dist)
         chk.note_cases("session-twin[%s]" % variant, lines, nt, sample_n=1, dist=dist)
-    if chk.broken and not chk.failures:
+    if (chk.broken or chk.drift) and not chk.failures:
         search(chk, rnd)
     return chk.finish(level="proof",
         rule="session-twin: for each delivery scenario (geometries with capacity >= 1; ring positions from random histories, and explicitly the pair that wraps the ring end) one uninterrupted run and runs with drop + try_recover before fragment p for every p (all positions for short scripts, a sample incl. first / last / after completion otherwise), "
